@@ -2,15 +2,26 @@
 From Coq.Strings Require Import Byte String.
 From Coq Require Import List Arith NArith Bool.
 Import ListNotations.
-From V Require Import lib.Bytes lib.Sexp model.Fmt model.FmtReasons.
+From V Require Import lib.Bytes lib.Sexp model.Fmt model.FmtReasons spec.FmtHist.
 Require Extraction.
 Require Import ExtrOcamlBasic.
 
 Definition isf (f : bytes) (s : string) : bool := bytes_eqb f (bs s).
 Definition arg (n : nat) (a : list bytes) : bytes := nth n a [].
 
+(* an outcome on the wire: "S" ++ the text written back, or "N" (the file was rejected) *)
+Definition outcome (b : bytes) : option bytes := match b with c :: r => if Byte.eqb c "S"%byte then Some r else None | [] => None end.
+
 Definition dispatch (f : bytes) (a : list bytes) : list bytes :=
-  if isf f "fmt" then
+  if isf f "histjudge" then
+    (* args: the outcomes of one run in one process, then (same number) the outcome of each of its files in a process of
+       its own.  reply: the specification's judgement (spec/FmtHist.v run_judged_fresh) and the first differing file *)
+    let n := Nat.div2 (length a) in
+    let obs := map outcome (firstn n a) in
+    let ref := map outcome (skipn n a) in
+    [bs "ok"; if run_judged_fresh obs ref then bs "fresh" else bs "depends-on-history";
+     match first_difference 0 obs ref with Some k => dec (N.of_nat k) | None => bs "-" end]
+  else if isf f "fmt" then
     (* arg: formatter AST wire.  reply: first pass; predicted second pass; predicted third pass; reasons (LF separated) *)
     match parse_all (arg 0 a) with
     | Some x => match dfile x with
